@@ -39,7 +39,8 @@ func handleSADD(params internal.HandlerFuncParams) ([]byte, error) {
 		if err = params.SetValues(params.Context, map[string]interface{}{key: set}); err != nil {
 			return nil, err
 		}
-		return []byte(fmt.Sprintf(":%d\r\n", len(params.Command[2:]))), nil
+		// Members named more than once are added once
+		return []byte(fmt.Sprintf(":%d\r\n", set.Cardinality())), nil
 	}
 
 	set, ok := params.GetValues(params.Context, []string{key})[key].(*Set)
